@@ -298,6 +298,90 @@ pub struct Driver {
     /// accumulators after lookup::eval_packed_lookups_generic on explicit values:
     /// (alphas, z_last, l_first, l_last, local, next, aux local, aux next, challenges)
     pub lkeval: Box<dyn Fn(&[FE], FE, FE, FE, &[FE], &[FE], &[FE], &[FE], &[F]) -> Option<Vec<FE>>>,
+    /// a prover that never commits to quotient polynomials: the proof carries `quotient_polys_cap = None`
+    /// and quotient openings fitted after zeta is known (for any trace, satisfying or not)
+    pub forge_uncommitted_quotient: Box<dyn Fn(&StarkConfig, &[Vec<F>], &[F]) -> ProveOut>,
+    /// `starkshape <what the Stark and the configuration say> <presence / lengths of the proof's parts> = 1|0|panic`:
+    /// the verdict of verifier::validate_proof_shape (Model/StarkShape.v)
+    pub shape_line: Box<dyn Fn(&StarkConfig, &Sp) -> String>,
+}
+
+/// The forger behind `Driver::forge_uncommitted_quotient` (STARKs without lookups or CTLs).  It follows the
+/// honest prover's transcript up to the constraint challenges, skips the quotient commitment, draws zeta,
+/// and only then picks "quotient polynomials" a + bX (and zeros) whose values at zeta satisfy the
+/// verifier's identity for whatever the trace is; the FRI proof over them is honest (they are low-degree).
+fn forge_uncommitted_quotient<const N: usize, const PI: usize>(stark: &Fam<N, PI>, cfg: &StarkConfig, rows: &[Vec<F>], pis: &[F]) -> anyhow::Result<Sp> {
+    use plonky2::field::polynomial::PolynomialCoeffs;
+    use plonky2::fri::oracle::PolynomialBatch;
+    use plonky2::fri::structure::{FriOpeningBatch, FriOpenings};
+    use starky::proof::{StarkOpeningSet, StarkProof};
+    let degree = rows.len();
+    let degree_bits = degree.trailing_zeros() as usize;
+    let (rate_bits, cap_height) = (cfg.fri_config.rate_bits, cfg.fri_config.cap_height);
+    let fri_params = cfg.fri_params(degree_bits);
+    let mut timing = TimingTree::default();
+    let tc = PolynomialBatch::<F, C, D>::from_values(to_poly_values(rows, N), rate_bits, false, cap_height, &mut timing, None);
+    let trace_cap = tc.merkle_tree.cap.clone();
+    let mut ch = Challenger::<F, <C as GenericConfig<D>>::Hasher>::new();
+    ch.observe_elements(pis);
+    cfg.observe(&mut ch);
+    ch.observe_cap(&trace_cap);
+    let nch = cfg.num_challenges;
+    let vanish = |zeta: FE, alphas: &[F], lv: &[FE], nv: &[FE]| -> Vec<FE> {
+        let (l0, ll) = starky::verif_hooks::eval_l_0_and_l_last(degree_bits, zeta);
+        let last = F::primitive_root_of_unity(degree_bits).inverse();
+        let mut consumer = ConstraintConsumer::<FE>::new(alphas.iter().map(|&a| feb(a)).collect(), zeta - feb(last), l0, ll);
+        let pis_e: Vec<FE> = pis.iter().map(|&x| feb(x)).collect();
+        let vars = StarkFrame::<FE, FE, N, PI>::from_values(lv, nv, &pis_e);
+        stark.eval_ext(&vars, &mut consumer);
+        consumer.accumulators()
+    };
+    // the prover's constraint-binding step (prove_with_commitment), replayed
+    let alphas_prime = ch.get_n_challenges(nch);
+    let total = N * 2;
+    let pow_degree = core::cmp::max(2, stark.constraint_degree() + 1);
+    let num_extension_powers = core::cmp::max(1, 50 / plonky2::util::log2_ceil(pow_degree) - 1);
+    let simulating_zetas = ch.get_n_extension_challenges::<D>(total.div_ceil(num_extension_powers));
+    let nb = core::cmp::min(num_extension_powers + 1, total);
+    let dummy: Vec<FE> = simulating_zetas.iter()
+        .flat_map(|&z| std::iter::successors(Some(z), move |prev: &FE| Some(prev.exp_u64(pow_degree as u64))).take(nb)).collect();
+    let zeta_prime = ch.get_extension_challenge::<D>();
+    let constraints = vanish(zeta_prime, &alphas_prime, &dummy[..N], &dummy[N..2 * N]);
+    ch.observe_extension_elements::<D>(&constraints);
+    let alphas = ch.get_n_challenges(nch);
+    // no quotient commitment is observed
+    let zeta = ch.get_extension_challenge::<D>();
+    let g = F::primitive_root_of_unity(degree_bits);
+    let ev = |p: &PolynomialCoeffs<F>, z: FE| p.to_extension::<D>().eval(z);
+    let local: Vec<FE> = tc.polynomials.iter().map(|p| ev(p, zeta)).collect();
+    let next: Vec<FE> = tc.polynomials.iter().map(|p| ev(p, zeta * feb(g))).collect();
+    let van = vanish(zeta, &alphas, &local, &next);
+    let z_h = zeta.exp_power_of_2(degree_bits) - FE::ONE;
+    let qdf = stark.quotient_degree_factor();
+    let za: [F; 2] = <FE as FieldExtension<D>>::to_basefield_array(&zeta);
+    let mut qpolys = vec![];
+    for i in 0..nch {
+        let t: [F; 2] = <FE as FieldExtension<D>>::to_basefield_array(&(van[i] / z_h));
+        let b = t[1] / za[1];
+        let a = t[0] - b * za[0];
+        let mut c = vec![F::ZERO; degree];
+        c[0] = a;
+        c[1] = b;
+        qpolys.push(PolynomialCoeffs::new(c));
+        for _ in 1..qdf { qpolys.push(PolynomialCoeffs::new(vec![F::ZERO; degree])); }
+    }
+    let qc = PolynomialBatch::<F, C, D>::from_coeffs(qpolys, rate_bits, false, cap_height, &mut timing, None);
+    let quot: Vec<FE> = qc.polynomials.iter().map(|p| ev(p, zeta)).collect();
+    let openings = StarkOpeningSet { local_values: local.clone(), next_values: next.clone(), auxiliary_polys: None, auxiliary_polys_next: None,
+                                     ctl_zs_first: None, quotient_polys: Some(quot.clone()) };
+    ch.observe_openings::<D>(&FriOpenings::<F, D> { batches: vec![
+        FriOpeningBatch::<F, D> { values: local.iter().chain(quot.iter()).copied().collect() },
+        FriOpeningBatch::<F, D> { values: next.clone() }] });
+    let opening_proof = PolynomialBatch::prove_openings(&stark.fri_instance(zeta, g, 0, vec![], cfg), &[&tc, &qc], &mut ch, &fri_params, None, None, &mut timing);
+    Ok(StarkProofWithPublicInputs {
+        proof: StarkProof { trace_cap, auxiliary_polys_cap: None, quotient_polys_cap: None, openings, opening_proof },
+        public_inputs: pis.to_vec(),
+    })
 }
 
 pub fn to_poly_values(rows: &[Vec<F>], ncols: usize) -> Vec<PolynomialValues<F>> {
@@ -321,6 +405,8 @@ fn make<const N: usize, const PI: usize>(spec: Arc<FamSpec>) -> Driver {
     let s3 = spec.clone();
     let s4 = spec.clone();
     let s5 = spec.clone();
+    let s6 = spec.clone();
+    let s7 = spec.clone();
     Driver {
         spec,
         prove: Box::new(move |cfg, rows, pis| {
@@ -367,6 +453,34 @@ fn make<const N: usize, const PI: usize>(spec: Arc<FamSpec>) -> Driver {
                 starky::verif_hooks::eval_lookups_ext::<F, Fam<N, PI>, D>(&stark, &vars, auxl, auxn, chs, &mut consumer);
                 consumer.accumulators()
             })).ok()
+        }),
+        shape_line: Box::new(move |cfg, p| {
+            let stark = Fam::<N, PI> { spec: s7.clone() };
+            let o = |x: Option<usize>| x.map_or(-1i64, |l| l as i64);
+            let pr = &p.proof;
+            let op = &pr.openings;
+            let first_path = pr.opening_proof.query_round_proofs.first()
+                .and_then(|q| q.initial_trees_proof.evals_proofs.first()).map(|(_, m)| m.siblings.len());
+            let args: Vec<i64> = vec![
+                cfg.fri_config.cap_height as i64, cfg.fri_config.rate_bits as i64, N as i64, PI as i64,
+                stark.uses_lookups() as i64, stark.requires_ctls() as i64, stark.num_lookup_helper_columns(cfg) as i64,
+                stark.num_quotient_polys(cfg) as i64, 0, 0,
+                p.public_inputs.len() as i64, o(first_path), pr.trace_cap.0.len() as i64,
+                o(pr.auxiliary_polys_cap.as_ref().map(|c| c.0.len())), o(pr.quotient_polys_cap.as_ref().map(|c| c.0.len())),
+                op.local_values.len() as i64, op.next_values.len() as i64,
+                o(op.auxiliary_polys.as_ref().map(|v| v.len())), o(op.auxiliary_polys_next.as_ref().map(|v| v.len())),
+                o(op.ctl_zs_first.as_ref().map(|v| v.len())), o(op.quotient_polys.as_ref().map(|v| v.len()))];
+            let v = match catch_unwind(AssertUnwindSafe(|| starky::verif_hooks::validate_proof_shape::<F, C, Fam<N, PI>, D>(&stark, &p.proof, &p.public_inputs, cfg, 0, 0))) {
+                Ok(Ok(())) => "1", Ok(Err(_)) => "0", Err(_) => "panic" };
+            format!("starkshape {} = {}", args.iter().map(|x| x.to_string()).collect::<Vec<_>>().join(" "), v)
+        }),
+        forge_uncommitted_quotient: Box::new(move |cfg, rows, pis| {
+            let stark = Fam::<N, PI> { spec: s6.clone() };
+            match catch_unwind(AssertUnwindSafe(|| forge_uncommitted_quotient::<N, PI>(&stark, cfg, rows, pis))) {
+                Ok(Ok(p)) => ProveOut::Proof(Box::new(p)),
+                Ok(Err(e)) => ProveOut::Err(format!("{e}")),
+                Err(_) => ProveOut::Panic(panic_site()),
+            }
         }),
     }
 }
@@ -761,6 +875,66 @@ fn starkid_line(w: &mut dyn Write, drv: &Driver, cfg: &StarkConfig, p: &Sp, verd
     true
 }
 
+/// Variants of an accepted proof that differ in which optional parts are present and how long the parts are
+/// (none of them equals the proof itself).
+fn shape_variants(p: &Sp, r: &mut Rng) -> Vec<(String, Sp)> {
+    use plonky2::hash::merkle_tree::MerkleCap;
+    let mut out: Vec<(String, Sp)> = vec![];
+    let cap = p.proof.trace_cap.clone();
+    // a cap of another length: half of it, or twice a single entry
+    let half = |c: &MerkleCap<F, <C as GenericConfig<D>>::Hasher>| if c.0.len() >= 2 { MerkleCap(c.0[..c.0.len() / 2].to_vec()) }
+                                                                   else { MerkleCap(c.0.iter().chain(c.0.iter()).cloned().collect()) };
+    let some_ext: Vec<FE> = p.proof.openings.local_values.clone();
+    // quotient commitment x quotient openings
+    for qc in 0..4usize {
+        for qo in 0..4usize {
+            if qc == 0 && qo == 0 { continue; }
+            let mut q = p.clone();
+            let orig_cap = p.proof.quotient_polys_cap.clone();
+            q.proof.quotient_polys_cap = match qc { 0 => orig_cap, 1 => if orig_cap.is_some() { None } else { Some(cap.clone()) },
+                                                     2 => Some(half(orig_cap.as_ref().unwrap_or(&cap))),
+                                                     _ => Some(MerkleCap(orig_cap.as_ref().unwrap_or(&cap).0.iter().chain(cap.0.iter()).cloned().collect())) };
+            let orig_q = p.proof.openings.quotient_polys.clone();
+            q.proof.openings.quotient_polys = match qo { 0 => orig_q, 1 => if orig_q.is_some() { None } else { Some(some_ext.clone()) },
+                                                          2 => Some(vec![]),
+                                                          _ => { let mut v = orig_q.unwrap_or_default(); if v.is_empty() || r.coin() { v.push(FE::ONE) } else { v.pop(); } Some(v) } };
+            out.push((format!("quotcap{qc}-quot{qo}"), q));
+        }
+    }
+    // auxiliary parts
+    for k in 0..7usize {
+        let mut q = p.clone();
+        let has = p.proof.auxiliary_polys_cap.is_some();
+        match k {
+            0 => q.proof.auxiliary_polys_cap = if has { None } else { Some(cap.clone()) },
+            1 => q.proof.openings.auxiliary_polys = if p.proof.openings.auxiliary_polys.is_some() { None } else { Some(some_ext.clone()) },
+            2 => q.proof.openings.auxiliary_polys_next = if p.proof.openings.auxiliary_polys_next.is_some() { None } else { Some(vec![]) },
+            3 => q.proof.openings.ctl_zs_first = if p.proof.openings.ctl_zs_first.is_some() { None } else { Some(vec![F::ONE]) },
+            4 => { q.proof.auxiliary_polys_cap = if has { None } else { Some(cap.clone()) };
+                   q.proof.openings.auxiliary_polys = if has { None } else { Some(vec![]) };
+                   q.proof.openings.auxiliary_polys_next = if has { None } else { Some(vec![]) }; }
+            5 => { if let Some(v) = q.proof.openings.auxiliary_polys.as_mut() { v.push(FE::ONE) } else { q.proof.openings.ctl_zs_first = Some(vec![]) } }
+            _ => { if let Some(c) = q.proof.auxiliary_polys_cap.as_mut() { *c = half(c) } else { q.proof.auxiliary_polys_cap = Some(half(&cap)) } }
+        }
+        out.push((format!("aux{k}"), q));
+    }
+    // mandatory parts
+    for k in 0..7usize {
+        let mut q = p.clone();
+        match k {
+            0 => { q.proof.openings.local_values.pop(); }
+            1 => q.proof.openings.next_values.push(FE::ZERO),
+            2 => q.proof.trace_cap = half(&cap),
+            3 => q.public_inputs.push(F::ZERO),
+            4 => { if q.public_inputs.pop().is_none() { q.proof.openings.local_values.push(FE::ZERO) } }
+            5 => q.proof.opening_proof.query_round_proofs.clear(),
+            _ => { for qr in q.proof.opening_proof.query_round_proofs.iter_mut().take(1) { qr.initial_trees_proof.evals_proofs.clear(); } }
+        }
+        out.push((format!("part{k}"), q));
+    }
+    out
+}
+
 // ------------------------------------------------------------------------------------------
 // the C09 cases of one (family, configuration)
 
@@ -817,6 +991,29 @@ fn family_cases(w: &mut dyn Write, r: &mut Rng, b: &Built, cname: &str, cfg: &St
         writeln!(w, "c09 {fam} wrong-public-input:{j} = {} # sat={} prover={po} verify={vo}", held as u8, sat as u8).unwrap();
         cnt += 1;
     }
+    // a prover that never commits to the quotient polynomials (quotient_polys_cap = None, quotient openings
+    // fitted after zeta): for a violating trace and for the honest one alike the verifier must not accept,
+    // the proof does not have the shape of a proof for a STARK with constraints
+    if b.spec.degree >= 1 && b.spec.lookups.is_empty() && !b.spec.ctl && n >= 2 {
+        let mut bad = b.rows.clone();
+        let mut found = None;
+        for _ in 0..8 {
+            let (row, col) = (r.below(n as u64) as usize, b.cols[r.below(b.cols.len() as u64) as usize].0);
+            bad[row][col] += F::ONE + fe(r.below(1 << 20));
+            if b.spec.violated(&bad, &b.pis).is_some() { found = Some((row, col)); break; }
+        }
+        for (tag, rows) in [("violating", &bad), ("honest", &b.rows)] {
+            if tag == "violating" && found.is_none() { continue; }
+            let (po, vo) = match (drv.forge_uncommitted_quotient)(cfg, rows, &b.pis) {
+                ProveOut::Proof(p) => ("proof".to_string(), (drv.verify)(cfg, *p)),
+                ProveOut::Err(e) => (format!("err({})", e.chars().take(40).collect::<String>().replace(' ', "_")), "-".into()),
+                ProveOut::Panic(s) => (s, "-".into()),
+            };
+            writeln!(w, "c09 {fam} forged-uncommitted-quotient:{tag} = {} # sat={} forger={po} verify={vo}",
+                     (vo != "ok") as u8, (tag == "honest" && sat0) as u8).unwrap();
+            cnt += 1;
+        }
+    }
     // an accepted proof presented with other public inputs; tamper sweep; algebraic identity line
     if let (Some(p), true) = (proof, vo == "ok") {
         for j in 0..p.public_inputs.len() {
@@ -827,6 +1024,15 @@ fn family_cases(w: &mut dyn Write, r: &mut Rng, b: &Built, cname: &str, cfg: &St
             cnt += 1;
         }
         if starkid_line(w, &drv, cfg, &p, "ok") { cnt += 1 }
+        // presence / length variants of the optional parts: the shape verdict (Model/StarkShape.v) and the full verdict
+        writeln!(w, "{}", (drv.shape_line)(cfg, &p)).unwrap();
+        cnt += 1;
+        for (name, q) in shape_variants(&p, r) {
+            writeln!(w, "{}", (drv.shape_line)(cfg, &q)).unwrap();
+            let o = (drv.verify)(cfg, q);
+            writeln!(w, "c09 {fam} shape:{name} = {} # {o}", (o != "ok") as u8).unwrap();
+            cnt += 2;
+        }
         // openings tampered: the identity must fail (tie of the model's algebraic check)
         for k in 0..2usize {
             let mut q = p.clone();
@@ -1130,6 +1336,18 @@ pub fn run_c18stark(seed: u64, tier: &str, w: &mut dyn Write) -> usize {
             f(&mut q);
             if serde_json::to_string(&q).unwrap() == base_json { continue; }
             writeln!(w, "c18stark {name} {} = {}  # {}", mi + 1, out(q), desc).unwrap();
+            n += 1;
+        }
+        // not a tampered honest proof but one built to be malformed: no quotient commitment, quotient openings
+        // fitted after zeta (for the honest trace, so that only the shape is wrong), and presence / length variants
+        if b.spec.degree >= 1 && b.spec.lookups.is_empty() && !b.spec.ctl {
+            if let ProveOut::Proof(q) = (drv.forge_uncommitted_quotient)(&cfg, &b.rows, &b.pis) {
+                writeln!(w, "c18stark {name} 9000 = {}  # built without quotient commitment: quotient_polys_cap None, quotient openings fitted after zeta", out(*q)).unwrap();
+                n += 1;
+            }
+        }
+        for (vi, (vname, q)) in shape_variants(&p, &mut r).into_iter().enumerate() {
+            writeln!(w, "c18stark {name} {} = {}  # shape variant {vname}", 9001 + vi, out(q)).unwrap();
             n += 1;
         }
     }
